@@ -13,7 +13,7 @@ pub fn def() -> CheckDef {
         id: "C13",
         title: "Processes are isolated; outcome is independent of load, cache size and threads",
         case,
-        rule: "case = 2..12 (thorough: up to 64) concurrently started processes over 1..3 generated models with overlapping variable names, each with its own start valuation x cache capacity in {1, 2, n/2, n, 1024} (capacity below the number of processes evicts processes that are in use) x evictions of seeded processes at seeded quiescent points (dropped and reloaded from the store) x store backend x a client that answers any open interrupt of any process in a seeded order x seeded schedule, plus a second start with the pid of a live process. Every process's projection (multiset of its messages up to ids, final task outcomes, terminal event and outputs) must equal the same (model, valuation, client table) run alone with the default cache; pids unique; duplicate start refused; no message carries a foreign pid. non-trivial = at least 3 processes ran concurrently and the capacity was below their number or two processes of the same model had different valuations; distinct = distinct (scenario hash, schedule hash)",
+        rule: "case = 2..12 (thorough: up to 64) concurrently started processes over 1..3 generated models with overlapping variable names, scripts writing the process env along the flow and a last step reading it (60% of the models), nodes without an id (a third of the cases), each with its own start valuation x cache capacity in {1, 2, n/2, n, 1024} (capacity below the number of processes evicts processes that are in use) x evictions of seeded processes at seeded quiescent points (dropped and reloaded from the store) x store backend x a client that answers any open interrupt of any process in a seeded order x seeded schedule, plus a second start with the pid of a live process. Every process's projection (multiset of its messages up to ids, final task outcomes, terminal event and outputs) must equal the same (model, valuation, client table) run alone with the default cache; pids unique; duplicate start refused; no message carries a foreign pid. non-trivial = at least 3 processes ran concurrently and the capacity was below their number or two processes of the same model had different valuations; distinct = distinct (scenario hash, schedule hash)",
         level: "exploration",
         assumptions: &["runtime worker threads are approximated by task-level interleaving (layer 1)", "models without run-time generated acts (their reload is the recorded finding of C12)", "monotone simulated clock", "no storage errors are injected"],
         probes: &["probe.capacity_below_processes", "probe.evicted_and_reloaded", "probe.same_model_different_values", "probe.duplicate_start", "probe.sqlite", "probe.ten_or_more_processes", "probe.nodes_without_id"],
@@ -299,5 +299,153 @@ pub fn case(ctx: &mut CaseCtx) -> CaseOut {
     out.outcome_hash = outcome_hash(&rec);
     out.sample = sample_of(&sc, json!({"processes": n, "cache_cap": sc.engine.cache_cap, "store": sc.engine.store, "solo_runs": solo.len(), "messages": rec.msgs.len()}));
     let _ = completer_for;
+    out
+}
+
+// ---------------------------------------------------------------------------------------------
+// part (b), layer 2: client threads act while the engine's own thread is in the middle of its work
+
+pub fn def_b() -> CheckDef {
+    CheckDef {
+        id: "C13b",
+        title: "Isolation: the outcome does not depend on how client threads interleave with the engine's thread (layer 2)",
+        case: case_b,
+        rule: "case = generated model with parallel structure (multi-branch steps, block/parallel/sequence acts) x scripted client (complete / skip / abort / error / submit / remove) played by 1..3 virtual client threads that answer every interrupt as soon as its message has been delivered, while the executor runs as one more virtual thread: the baton moves at intercepted engine lock acquisitions (preemption probability 1% / 10% / 50%), so a client action lands in the middle of the scheduler's work on the same process (between a check and the lock, between two queued siblings) x seeded baton choices. Judged by the invariants that hold for every interleaving: no terminal task state is rewritten and stages only move forward (C02's monitor), at most one terminal message per task and stream/trace agreement (C08's monitor), nothing open beneath a completed task and one terminal event at the final quiescent point (C03's oracle), no deadlock of the engine on its own locks, no panic. non-trivial = a client call overlapped engine work (a baton switch inside a client call) and at least one non-complete action was accepted; distinct = distinct (scenario hash, schedule hash)",
+        level: "exploration",
+        assumptions: &["preemption happens at engine lock acquisitions (all shared engine state is behind these locks)", "virtual threads are real OS threads released one at a time; the interleaving is the decision trace", "monotone simulated clock"],
+        probes: &["probe.switch_inside_client_call", "probe.forced_switch", "probe.three_client_threads", "probe.non_complete_action_accepted", "probe.action_while_tasks_queued"],
+        quick_cases: 1500,
+        no_shrink: &[],
+    }
+}
+
+pub fn case_b(ctx: &mut CaseCtx) -> CaseOut {
+    let sc = ctx.scenario(|rng| {
+        let opts = LifeOpts { catches: rng.below(4) == 0, scripted_actions: &["skip", "skip", "abort", "error", "submit", "remove", "complete"], p_scripted: *rng.pick(&[300, 500, 700]), adversary: None, dup: rng.below(3) == 0, generators: true, hooks: false, outputs: false, drop_outputs: false };
+        let mut sc = gen_lifecycle(rng, &opts);
+        sc.client.mode = "sequential".into();
+        sc.engine.keep_processes = true;
+        sc.knobs = random_knobs(rng);
+        // number of client threads and preemption rate travel in the scenario (replays)
+        sc.max_ops = 1 + rng.below(3) as u32;
+        sc.pre_jump_us = *rng.pick(&[10i64, 100, 500]);
+        sc.capture = true;
+        sc
+    });
+    let n_threads = sc.max_ops.clamp(1, 3) as usize;
+    let preempt = sc.pre_jump_us.clamp(1, 900) as u32;
+    let stats: std::sync::Arc<std::sync::Mutex<(u64, u64, u64, Option<String>, bool)>> = Default::default();
+    let stats2 = stats.clone();
+    let mut sc_run = sc.clone();
+    sc_run.pre_jump_us = 0;
+    let rec = ctx.run_with(&sc_run, move |w| {
+        if let Err(e) = w.deploy_all() {
+            w.rec.lock().unwrap().rec.panics.push(format!("deploy: {e}"));
+            return;
+        }
+        let starts = w.sc.starts.clone();
+        vsim::vthread::begin(preempt);
+        for s in &starts {
+            w.start(s);
+        }
+        let mut hs = vec![];
+        for i in 0..n_threads {
+            let engine = w.engine().clone();
+            let rec = w.rec.clone();
+            let client = w.sc.client.clone();
+            let epoch = w.epoch;
+            hs.push(vsim::vthread::spawn(&format!("client{}", i), move || {
+                vsim::set_epoch(epoch);
+                let mut done = 0;
+                let mut idle = 0;
+                loop {
+                    let oa = {
+                        let mut g = rec.lock().unwrap();
+                        if g.open.is_empty() {
+                            None
+                        } else {
+                            Some(g.open.remove(0))
+                        }
+                    };
+                    match oa {
+                        Some(oa) => {
+                            idle = 0;
+                            crate::world::react(&engine, &rec, &client, &oa, false);
+                            done += 1;
+                            if done >= 60 {
+                                break;
+                            }
+                        }
+                        None => {
+                            idle += 1;
+                            // nothing to answer: let the others run; when nobody else can run either, the run is over
+                            if !vsim::vthread::point(true) || idle > 400 {
+                                break;
+                            }
+                        }
+                    }
+                }
+            }));
+        }
+        let (_n, ok) = crate::layer2::run_executor_with_threads(200_000);
+        let st = vsim::vthread::end();
+        for h in hs {
+            let _ = h.join();
+        }
+        *stats2.lock().unwrap() = (st.points, st.switches, st.forced, st.deadlock, ok);
+        w.settle();
+        w.capture("after the threads");
+        w.qidx += 1;
+    });
+    let mut out = CaseOut { scenario: Some(sc.clone()), ..Default::default() };
+    let st = stats.lock().unwrap().clone();
+    if let Some(d) = &st.3 {
+        out.violations.push(Violation::new("C13", "engine_lock_deadlock", json!({"threads": true}), format!("the engine deadlocked on its own locks while client threads were acting: {}", d)));
+        return out;
+    }
+    if discard_if_broken(&rec, &mut out) {
+        return out;
+    }
+    if !st.4 {
+        out.discarded = Some("threads did not settle within the step cap".into());
+        return out;
+    }
+    ctx.count("layer2.sched_points", st.0);
+    ctx.count("layer2.switches", st.1);
+    if st.2 > 0 {
+        ctx.count("probe.forced_switch", 1);
+    }
+    if n_threads == 3 {
+        ctx.count("probe.three_client_threads", 1);
+    }
+    // a baton switch inside a client call: some state write or message of the engine lies inside a call's interval
+    let inside = rec.actions.iter().any(|a| rec.trans.iter().any(|t| t.seq > a.seq0 && t.seq < a.seq1 && !rec.trans.iter().any(|u| u.seq == t.seq && false)) && rec.msgs.iter().any(|m| m.seq > a.seq0 && m.seq < a.seq1));
+    if inside {
+        ctx.count("probe.switch_inside_client_call", 1);
+    }
+    let non_complete = rec.actions.iter().any(|a| a.ok && a.action != "complete");
+    if non_complete {
+        ctx.count("probe.non_complete_action_accepted", 1);
+    }
+    // an accepted action while tasks of the same process were still waiting in the queue (created, not yet initialised)
+    let queued_then = rec.actions.iter().filter(|a| a.ok).any(|a| {
+        let created: std::collections::BTreeSet<&str> = rec.trans.iter().filter(|t| t.pid == a.pid && t.seq < a.seq0 && t.old == "none").map(|t| t.tid.as_str()).collect();
+        let started: std::collections::BTreeSet<&str> = rec.trans.iter().filter(|t| t.pid == a.pid && t.seq < a.seq0 && t.old != "none").map(|t| t.tid.as_str()).collect();
+        created.iter().any(|t| !started.contains(t))
+    });
+    if queued_then {
+        ctx.count("probe.action_while_tasks_queued", 1);
+    }
+    let mut v: Vec<Violation> = vec![];
+    for (name, found) in [("task_lifecycle", super::c02::lifecycle_oracle(&sc, &rec)), ("message_stream", super::c08::stream_oracle(&sc, &rec)), ("hierarchy", super::c03::hierarchy_oracle(&sc, &rec))] {
+        if let Some(f) = found.into_iter().next() {
+            v.push(Violation::new("C13", "threaded_run_breaks_invariant", json!({"invariant": name, "kind": f.kind, "of": f.property}), format!("{} client thread(s) acting while the engine's thread works (preemption {} per mille at lock points): {} [{}] {}", n_threads, preempt, f.kind, f.signature, f.detail)));
+            break;
+        }
+    }
+    out.violations = v;
+    out.nontrivial = inside && non_complete;
+    out.outcome_hash = outcome_hash(&rec);
+    out.sample = basic_sample(&sc, &rec, json!({"client_threads": n_threads, "preempt_permille": preempt, "lock_sched_points": st.0, "baton_switches": st.1}));
     out
 }
